@@ -197,7 +197,7 @@ def add_placeholders(rng, v, names=('D', 'N'), p=0.3):
     return v
 
 
-def gen_key_spec(rng, modname=None, alphabet=None, keys=None, kinds=None, mode='param', bases=0.25):
+def gen_key_spec(rng, modname=None, alphabet=None, keys=None, kinds=None, mode='param', bases=0.25, dotted=False):
     """one pipeline file mounted (or not) under a namespace by a main config; optional placeholders"""
     modname = modname or fresh_modname()
     classes, pfile = gen_pipeline(rng, alphabet=alphabet, keys=keys, kinds=kinds, modname=modname, bases=bases)
@@ -206,8 +206,17 @@ def gen_key_spec(rng, modname=None, alphabet=None, keys=None, kinds=None, mode='
     if rng.random() < 0.3:
         gv = {'D': rng.choice(['/data', "q'uote", 'x y']), 'N': rng.choice([5, 1.5])}
         pfile = {k: (add_placeholders(rng, v) if k not in ('tasks',) else v) for k, v in pfile.items()}
+    # config file names: plain, or with dots inside the stem (`baseline.v2.json`: the config NAME is `baseline.v2`, and in name mode
+    # it is the storage key — `baseline.v1` and `baseline.v2` are different results)
+    mainf, pf = 'main.json', 'p.json'
+    if dotted and rng.random() < (0.6 if mode == 'name' else 0.25):
+        mainf = rng.choice(['exp.2024.json', 'main.v2.json', 'run.1.0.json', 'a.b.json'])
+        pf = rng.choice(['base.v1.json', 'base.v2.json', 'p.final.json', 'p.0.json'])
     if ns is None and rng.random() < 0.5:
-        files = {'main.json': pfile}
+        files = {mainf: pfile}
+        declaring = mainf
     else:
-        files = {'p.json': pfile, 'main.json': {'uses': ['@cfg/p.json' + (f' as {ns}' if ns else '')]}}
-    return {'module': modname, 'classes': classes, 'files': files, 'main': 'main.json', 'global_vars': gv, 'mode': mode}
+        files = {pf: pfile, mainf: {'uses': [f'@cfg/{pf}' + (f' as {ns}' if ns else '')]}}
+        declaring = pf
+    return {'module': modname, 'classes': classes, 'files': files, 'main': mainf, 'global_vars': gv, 'mode': mode,
+            'declaring_file': declaring}
